@@ -248,7 +248,7 @@ impl Check for C04 {
         "C04"
     }
     fn work(&self, tier: Tier) -> Vec<WorkItem> {
-        vec![WorkItem { mode: "direct", count: tier.pick(3_000, 200_000) }]
+        vec![WorkItem { mode: "directed", count: 1 }, WorkItem { mode: "direct", count: tier.pick(3_000, 200_000) }]
     }
     fn evaluations_counter(&self) -> &'static str {
         "signal_values_compared"
@@ -274,9 +274,23 @@ impl Check for C04 {
     fn shard_timeout_s(&self, tier: Tier) -> u64 {
         tier.pick(1800, 6 * 3600)
     }
-    fn run_case(&self, sh: &mut Shard, _case: &CaseId) {
+    fn run_case(&self, sh: &mut Shard, case: &CaseId) {
         let mut rng = Rng::new(sh.case_seed());
         let mut ctx = Context::default();
+        if case.mode == "directed" {
+            // a signal that only an init expression uses (`x_init`, used twice) reads a signal that only next
+            // functions use (`n2`): entering at a later step must still define `n2` first
+            let text = "1 sort bitvec 2\n2 sort bitvec 1\n3 state 1 s\n4 one 1\n5 init 1 3 4\n6 slice 2 3 1 1 n2\n7 add 1 3 4\n8 ite 1 6 3 7\n9 next 1 3 8\n10 not 2 6 x_init\n11 slice 2 3 0 0\n12 ite 2 11 10 -10\n13 xor 2 12 10\n14 state 2 t\n15 init 2 14 13\n16 xor 2 14 6\n17 next 2 14 16\n18 bad 14\n";
+            let Some(sys) = patronus::btor2::parse_str(&mut ctx, text, Some("directed")) else { return };
+            let label = describe(&ctx, &sys);
+            for (entry, nsteps) in [(1u64, 1u64), (1, 2), (0, 2)] {
+                for persona in ["z3", "cvc5"] {
+                    sh.count("directed_scripts", 1);
+                    self.one(sh, &mut ctx, &sys, &mut rng, &label, entry, nsteps, persona);
+                }
+            }
+            return;
+        }
         let cfg = mc_sys_cfg(&mut rng);
         let gs = gen_system(&mut rng, &mut ctx, &cfg, "");
         let sys = gs.sys;
